@@ -209,14 +209,20 @@ def vfile_deps(vfile, seen=None):
         return seen
     seen.add(vfile)
     src = strip_comments(open(vfile).read())
-    for m in re.finditer(r"From\s+OV\s+Require\s+(?:Import\s+|Export\s+)?((?:[A-Za-z_][\w']*(?:\.[A-Za-z_][\w']*)*\s*)+)\.", src):
-        for mod in m.group(1).split():
-            p = os.path.join(COQDIR, mod.replace(".", "/") + ".v")
-            vfile_deps(p, seen)
-    for m in re.finditer(r"Require\s+(?:Import\s+|Export\s+)?((?:OV\.[\w'.]+\s*)+)\.", src):
-        for mod in m.group(1).split():
-            p = os.path.join(COQDIR, mod[3:].replace(".", "/") + ".v")
-            vfile_deps(p, seen)
+    # sentences end with a '.' followed by whitespace / end of file; module names contain dots themselves
+    for m in re.finditer(r"(?:From\s+OV\s+)?Require\s+(?:Import\s+|Export\s+)?", src):
+        from_ov = m.group(0).lstrip().startswith("From")
+        end = re.compile(r"\.(?=\s|$)").search(src, m.end())
+        if not end:
+            continue
+        for mod in src[m.end():end.start()].split():
+            if from_ov:
+                rel = mod
+            elif mod.startswith("OV."):
+                rel = mod[3:]
+            else:
+                continue
+            vfile_deps(os.path.join(COQDIR, rel.replace(".", "/") + ".v"), seen)
     return seen
 
 def failing_statement(make_output):
